@@ -1083,27 +1083,33 @@ int main(int argc, char** argv) {
                                 }
                                 return true;
                             };
-                            bool missing = !covered(fe, fo);         // a feature of the plain tree is missing
-                            bool mismatch = missing;
-                            if (!mismatch && !covered(fo, fe)) {
-                                // the oracle tree reports more: each extra feature must at least be realisable,
-                                // i.e. be the smooth gradient of the plain tree at some nearby point
-                                std::mt19937 r2(99);
-                                std::uniform_real_distribution<float> dd(-1.0f, 1.0f);
-                                std::list<Eigen::Vector3f> nearby;
-                                for (float eps : {1e-3f, 3e-4f, 1e-4f}) for (int q = 0; q < 80; ++q) {
-                                    Eigen::Vector3f pq = p + eps * Eigen::Vector3f(dd(r2), dd(r2), dd(r2));
-                                    nearby.push_back(ee.deriv(pq).head<3>());
-                                }
-                                auto covered2 = [](const std::list<Eigen::Vector3f>& A, const std::list<Eigen::Vector3f>& B) {
-                                    for (auto& x : A) {
-                                        bool ok = false;
-                                        for (auto& y : B) if ((x - y).norm() <= 2e-2f * (1 + y.norm())) { ok = true; break; }
-                                        if (!ok) return false;
+                            // Both directions are judged against what is REALISABLE: the smooth gradients of
+                            // the plain tree at nearby points.  (The plain tree's own feature list may contain
+                            // combinations no nearby point realises - a tied min/max whose contributions cancel,
+                            // z' + min(z', x' - z') - which the oracle tree is right not to report.)
+                            std::list<Eigen::Vector3f> nearby;
+                            auto realisable = [&](const Eigen::Vector3f& x) {
+                                if (nearby.empty()) {
+                                    std::mt19937 r2(99);
+                                    std::uniform_real_distribution<float> dd(-1.0f, 1.0f);
+                                    for (float eps : {1e-3f, 3e-4f, 1e-4f}) for (int q = 0; q < 80; ++q) {
+                                        Eigen::Vector3f pq = p + eps * Eigen::Vector3f(dd(r2), dd(r2), dd(r2));
+                                        nearby.push_back(ee.deriv(pq).head<3>());
                                     }
-                                    return true;
-                                };
-                                mismatch = !covered2(fo, nearby);
+                                }
+                                for (auto& y : nearby) if ((x - y).norm() <= 2e-2f * (1 + y.norm())) return true;
+                                return false;
+                            };
+                            auto in_set = [](const Eigen::Vector3f& x, const std::list<Eigen::Vector3f>& B) {
+                                for (auto& y : B) if ((x - y).norm() <= 2e-3f * (1 + y.norm())) return true;
+                                return false;
+                            };
+                            bool missing = false;                    // a realisable feature of the plain tree is missing
+                            for (auto& x : fe) if (!in_set(x, fo) && realisable(x)) missing = true;
+                            bool mismatch = missing;
+                            if (!mismatch) {
+                                // the oracle tree reports more: each extra feature must at least be realisable
+                                for (auto& x : fo) if (!in_set(x, fe) && !realisable(x)) mismatch = true;
                             }
                             if (mismatch) {
                                 if (!fbad) {
